@@ -58,7 +58,11 @@ def gen(rng, ctx):
     eps = None
     if shared_ep and rng.random() < 0.5:
         eps = rng.sample(shared_ep, 1 if rng.random() < 0.5 else rng.randint(1, len(shared_ep)))
-    return {"c0": c0, "c1": c1, "pair": pk, "startpoints": sps, "endpoints": eps, "as_set": rng.random() < 0.5}
+    if rng.random() < 0.3:
+        c0 = G.shuffle_nodes(rng, c0)
+        if pk == "copy":
+            c1 = {**c0, "name": "cb"}
+    return {"c0": c0, "c1": c1, "pair": pk, "startpoints": sps, "endpoints": eps, "as_set": rng.random() < 0.5, "repeat": rng.random() < 0.2}
 
 
 def check(case, ctx):
@@ -80,6 +84,11 @@ def check(case, ctx):
     sarg = conv(case["startpoints"]) if case["startpoints"] else None
     earg = conv(case["endpoints"]) if case["endpoints"] else None
     ok, m = ctx.call(cg.tx.miter, c0, c1, sarg, earg)
+    if case.get("repeat"):
+        from rv.props._util import repeat_call
+
+        if not repeat_call(ctx, "miter", "miter", cg.tx.miter, (c0, c1, sarg, earg), {}, (ok, m)):
+            return
     if not ok:
         if isinstance(m, ValueError):
             ctx.reject("miter_name_clash" if "already" in str(m) or "overlap" in str(m) else "miter_valueerror")
